@@ -37,8 +37,7 @@ theorem seek_backwards_rewinds (p : Player) (t fuel : Nat) (h : t < p.current) :
 theorem seek_current (p : Player) (t fuel : Nat) (h : p.current ≤ t) :
     p.seek t fuel = (do
       let p2 ← seekLoop t fuel p
-      let e ← step p2.exec t
-      pure { exec := e, current := t, next := e.nextWakeup }) := by
+      pure { exec := step p2.exec t, current := t, next := (step p2.exec t).nextWakeup }) := by
   unfold Player.seek
   have : ¬ (t < p.current) := by omega
   simp [this]
